@@ -160,6 +160,13 @@ Sites(q) == <<
   [site |-> "block-echo", pre |-> "[{% for i in (1..1) %}{% echo ", post |-> " %}{% endfor %}]", before |-> "[", after |-> "]", hit |-> FALSE],
   [site |-> "block-when", pre |-> "[{% case 1 %}{% when 1 %}{{ ", post |-> " }}{% endcase %}]", before |-> "[", after |-> "]", hit |-> FALSE] >>
 \* the body of the literal as the text part of a template string: followed by an interpolation
+TStrPre == Cps("{{ ")
+TStrMid == Cps("${y}")
+TStrPost == Cps(" }}")
+\* (constant-level: TLC evaluates these once, not once per state)
+CSites(q) == [i \in DOMAIN Sites(q) |-> [Sites(q)[i] EXCEPT !.pre = Cps(@), !.post = Cps(@)]]
+SitesDQ == CSites(DQ)
+SitesSQ == CSites(SQ)
 TStrSite == [site |-> "template-string-text", pre |-> "{{ ", post |-> " }}", before |-> "", after |-> "!", hit |-> FALSE]
 
 Q(q) == <<q>>
@@ -167,17 +174,17 @@ ExportStr ==
   Mode = "str" =>
     LET body == Spell(units, quote)
         lit == Q(quote) \o body \o Q(quote)
-        ss == Sites(quote)
+        ss == IF quote = DQ THEN SitesDQ ELSE SitesSQ
         wide == Len(units) <= 1
     IN /\ \A i \in DOMAIN ss :
             (wide \/ (Len(units) = 2 /\ ss[i].site \in {"output", "path-segment", "interpolated", "include-name", "render-name", "block-output"})
                   \/ (Len(units) >= 3 /\ ss[i].site = "output")) =>
               Emit(ToJson([focus |-> Focus, kind |-> "str", site |-> ss[i].site, quote |-> quote,
-                           src |-> Cps(ss[i].pre) \o lit \o Cps(ss[i].post), value |-> Value(units),
+                           src |-> ss[i].pre \o lit \o ss[i].post, value |-> Value(units),
                            before |-> ss[i].before, after |-> ss[i].after, hit |-> ss[i].hit,
                            forms |-> [j \in DOMAIN units |-> units[j].form]]) \o "\n")
        /\ Len(units) >= 3 \/ Emit(ToJson([focus |-> Focus, kind |-> "str", site |-> TStrSite.site, quote |-> quote,
-                       src |-> Cps(TStrSite.pre) \o Q(quote) \o body \o Cps("${y}") \o Q(quote) \o Cps(TStrSite.post), value |-> Value(units),
+                       src |-> TStrPre \o Q(quote) \o body \o TStrMid \o Q(quote) \o TStrPost, value |-> Value(units),
                        before |-> TStrSite.before, after |-> TStrSite.after, hit |-> FALSE,
                        forms |-> [j \in DOMAIN units |-> units[j].form]]) \o "\n")
 
